@@ -749,11 +749,38 @@ def replay(prop, path):
     return rc
 
 
+def stack_adt(ctx, tier):
+    """PegStack.tla: every operation sequence up to the bound; the by-value discipline equals the ideal stack (invariant);
+    each sequence whose snapshots are all closed is replayed on the real restore_on_none."""
+    import textchk
+    n = 6 if tier == "quick" else 8
+    recs, st = peg.run_tlc("", "c05", cfg="PegStack.cfg", module="PegStack.tla", extra_env={"VERIF_MAXOPS": str(n)})
+    if not st["ok"]:
+        raise ToolError("TLC failed on PegStack:\n" + st.get("tail", "")[-3000:])
+    ctx.add_stats(st)
+    _, st2 = peg.run_tlc("", "c05", cfg="PegStack_pest.cfg", module="PegStack.tla", extra_env={"VERIF_MAXOPS": "6"}, workers=1)
+    ctx.notes["PegStack_pest2714_equals_ideal"] = bool(st2["ok"])      # expected False: the dependency's defect, explained by the spec
+    closed = [r for r in recs if r["open"] == 0]
+    binp = textchk.textrun_bin()
+    obs = textchk.run_text(binp, [{"idx": i, "s": [], "mode": "stack", "ops": r["ops"]} for i, r in enumerate(closed)])
+    for i, r in enumerate(closed):
+        o = obs.get(i, {})
+        ctx.cov["evaluations"] += 1
+        if any(op[0] in ("restore", "clear") for op in r["ops"]):
+            ctx.cov["distinct_nontrivial"] += 1
+        if o.get("content") != r["content"]:
+            ctx.violation("restore_on_none on the operation sequence %s: expected stack %s observed %s" % (r["ops"], r["content"], o.get("content")),
+                          {"kind": "stack_ops", "ops": r["ops"], "expected": r["content"], "observed": o})
+    ctx.cov["traces_validated_against_impl"] += len(closed)
+    ctx.notes["stack_op_sequences_replayed"] = len(closed)
+
+
 def check_C05(tier, seed):
     ctx = Ctx("C05", tier, seed)
     grams = grams_for("C05", tier, seed)
     ctx.notes["grammars"] = len(grams)
     rows = run_generic(ctx, "c05", grams, "sP", cmp_c05)
+    stack_adt(ctx, tier)
     import tracechk
     tracechk.validate(ctx, "c05", [dict(g) for g in grams], seed, 6 if tier == "quick" else 40, rows=rows)
     return ctx.finish(rule=RULE_A + "Family: {choice, two-armed choice, optional, repetition, &, &-failing, !, !-succeeding, nested optional, repetition over choice} x 9 stack effects (PUSH, POP, DROP, POP_ALL, push-push, pop-push, drop-push, nested optional POP, choice of DROP|PUSH) x failing continuation x 5 probe suffixes that make any leaked or lost entry change acceptance, under normal / atomic / compound / non-atomic rules, + seeded random stack grammars. Decisive: verdict, offset (parse and check path) and the final stack contents against the immutable-stack denotation (M1, M2).")
